@@ -309,7 +309,7 @@ PROPS["C18"] = {
     "bounds": {"faults_per_event": 1, "events": "readable+reply write / writable flush / async write(v) task / accept (both reactor modes)"},
     "outside": ["pairs of faults", "epoll_wait failures"],
     "assumptions": ["ghost kernel contract"],
-    "units": [dict(_LOOP_COMMON, name="loop-fault", files=["harness/gnet/vloop_world.go", "harness/gnet/c18_fault.go"], cfg={"vcfg": {"nodes": 1}})],
+    "units": [dict(_LOOP_COMMON, name="loop-fault", files=["harness/gnet/vloop_world.go", "harness/gnet/c14_pick.go", "harness/gnet/c18_fault.go"], cfg={"vcfg": {"nodes": 1}})],
 }
 
 
